@@ -341,6 +341,19 @@ package iavl
 //@   ensures [version] be64(row(b), b.off) == ite(version >= 0, version, version + 18446744073709551616)
 //@   ensures [nonce] be32(row(b), b.off + 8) == 1
 
+// the root marker of a version whose root is an already stored node: the record under the version's root key is the
+// full database key of that node (format prefix + the 12-byte node key: version and the whole 32-bit nonce)
+//@ func (*nodeDB).SaveRoot(ndb, version, nk) (err)
+//@   props C13 C12
+//@   nosafety
+//@   requires ndb != nil && nk != nil && ndb.batch != nil
+//@   callsite GetRootKey [marker-under-the-versions-root-key] arg0 == version
+//@   callsite NodeKey).GetKey [reference-is-the-whole-node-key] arg0 == nk
+//@   callsite FastPrefixFormatter).Key@1 [marker-key-formatted-from-root-key] arg0 == nodeKeyFormat && arg1 == result("GetRootKey@1")
+//@   callsite FastPrefixFormatter).Key@2 [reference-formatted-from-node-key] arg0 == nodeKeyFormat && arg1 == result("NodeKey).GetKey@1")
+//@   callsite Batch).Set [key-and-reference-as-formatted] arg0 == result("FastPrefixFormatter).Key@1") && arg1 == result("FastPrefixFormatter).Key@2") && calls("FastPrefixFormatter).Key") == 2 && calls("NodeKey).GetKey") == 1 && calls("GetRootKey") == 1
+//@   modifies *
+
 //@ func GetNodeKey(key) (nk)
 //@   props C13 C12
 //@   requires len(key) >= 12
@@ -1013,8 +1026,6 @@ package iavl
 //@ func (*MutableTree).saveNewNodes(tree, version) (err)
 //@   summary
 //@ func (*nodeDB).SaveEmptyRoot(ndb, version) (err)
-//@   summary
-//@ func (*nodeDB).SaveRoot(ndb, version, nk) (err)
 //@   summary
 //@ func (*nodeDB).Commit(ndb) (err)
 //@   summary
